@@ -1170,7 +1170,7 @@ func checkCSVRows(c *core.Ctx) {
 		sides = append(sides, sd)
 	}
 	// the cell loop reads the file column of each used field and writes the output slot of the same step
-	if loop := csvCellLoop(sides[1].fn); loop != nil {
+	if loop := csvCellLoop(p, sides[1].fn); loop != nil {
 		info := sides[1].fn.Info()
 		bad := ""
 		keyObj, valObj := types.Object(nil), types.Object(nil)
